@@ -1026,7 +1026,7 @@ func (st *State) opaqueStrOp(op token.Token, a, b Value) Value {
 			for i := range oa.inj {
 				res = st.andV(res, st.equal(types.Typ[types.Uint8], oa.inj[i], ob.inj[i]))
 			}
-		case (oa != nil && oa.inj != nil && oa.fam == "ip:" && ob == nil) || (ob != nil && ob.inj != nil && ob.fam == "ip:" && oa == nil):
+		case (oa != nil && oa.inj != nil && strings.HasSuffix(oa.fam, "ip:") && ob == nil) || (ob != nil && ob.inj != nil && strings.HasSuffix(ob.fam, "ip:") && oa == nil):
 			// symbolic address text against a concrete string: equal iff the string is the literal of that address
 			o, other := oa, b
 			if o == nil {
@@ -1036,6 +1036,16 @@ func (st *State) opaqueStrOp(op token.Token, a, b Value) Value {
 			if !ok {
 				st.unsupported("equality on opaque strings")
 			}
+			// family "<prefix>+ip:" = constant prefix followed by the address text
+			prefix := strings.TrimSuffix(strings.TrimSuffix(o.fam, "ip:"), "+")
+			if !strings.HasPrefix(cs, prefix) {
+				res = false
+				if op == token.NEQ {
+					return true
+				}
+				return res
+			}
+			cs = cs[len(prefix):]
 			ip := net.ParseIP(cs)
 			if ip == nil || ip.String() != cs {
 				res = false
